@@ -249,11 +249,13 @@ class Module(ProgramUnit):
         s = self.__dict__.copy()
         # TODO: We need to remove the AST, as certain AST types
         # (eg. FParser) are not pickle-safe.
-        del s['_ast']
+        s.pop('_ast', None)
         return s
 
     def __setstate__(self, s):
         self.__dict__.update(s)
+
+        self._ast = None
 
         # Re-register all contained procedures in symbol table and update parentage
         if self.contains:
